@@ -172,7 +172,9 @@ def _recursive_repr(fillvalue='...'):
 
 
 def _is_auto_name(class_name, instance_name):
-    return re.match('^'+class_name+'[0-9]{5}$', instance_name)
+    # (five digits at least: the counter behind the names is shared by all
+    # classes and does not stop at 99999)
+    return re.match('^'+class_name+'[0-9]{5,}$', instance_name)
 
 
 def _find_pname(pclass):
